@@ -8,8 +8,8 @@ mkdir -p build/bin evidence replays
 if [ -d tools/gotables ]; then (cd tools/gotables && go build -o ../../build/bin/gotables . && ../../build/bin/gotables -repo /repo -out ../../coq/Gen >/dev/null); fi
 timeout 3000 coq/mk.sh -j16
 # 2. extraction + OCaml driver
-extract/build.sh
+for f in coq/Extract/*.v; do n=$(basename $f .v | tr A-Z a-z); extract/build.sh $n; done
 # 3. implementation-side harness against /repo
 cp /repo/go.sum harness/go.sum
-(cd harness && go build -tags verif -o ../build/bin/hv .)
+(cd harness && for d in cmd/*/; do n=$(basename $d); go build -tags verif -o ../build/bin/hv-$n ./cmd/$n; done)
 echo setup ok
